@@ -126,7 +126,7 @@ def edge_pairs(rng, n, family):
     raise ValueError(family)
 
 
-WEIGHT_SCHEMES = ("ones", "dyadic", "tenth", "somezero", "wide", "twolevel")
+WEIGHT_SCHEMES = ("ones", "dyadic", "tenth", "somezero", "wide", "twolevel", "tiny")
 
 
 def draw_weight(rng, scheme):
@@ -142,6 +142,9 @@ def draw_weight(rng, scheme):
         return rng.choice([1e-3, 0.02, 0.3, 1.0, 7.0, 250.0, 1e3])
     if scheme == "twolevel":
         return rng.choice([1.0, 1.0, 1.0, 9.0])
+    if scheme == "tiny":
+        # every rate of the run is ~1e-9: totals live far below any absolute threshold
+        return 1e-9 * rng.randint(1, 9)
     raise ValueError(scheme)
 
 
